@@ -52,6 +52,8 @@ type Prog struct {
 	funcIndex map[string]*ssa.Function
 	// Inline: what the normalisation pre-pass did (inlinenew.go); nil when it is off or found nothing to do
 	Inline *inlineReport
+	// baseline: spec/functions.json, loaded on first use by hostOfNewHelper
+	baseline map[string]map[string]bool
 }
 
 func childEnv(cfg BuildConfig) []string {
